@@ -7,6 +7,7 @@ import CelmaVerif.Lemmas.RulesExample
 import CelmaVerif.Lemmas.SourcesFaithful
 import CelmaVerif.Lemmas.ParseRefuseWide
 import CelmaVerif.Lemmas.SourcesSound
+import CelmaVerif.Lemmas.SourcesFunctional
 /-
   C02 — no command line that breaks a declared rule is silently accepted, at the level of argument
   vectors.  Three layers are composed:
@@ -221,7 +222,9 @@ end Examples
     nothing; every other line is split by `splitString` and read as a line of the command-line grammar
     `SP`, from the last-argument marker and `!` flag the line before left; each line has its own
     parser: a first word `!`/`(`/`)` is a value, "behind `--`" ends with the line), then the words of the
-    environment value, then `ws` spell exactly the uses the evaluation logged, in this order.  A reader
+    environment value, then `ws` spell exactly the uses the evaluation logged, in this order
+    ("exactly": the spelling is unique, `C02_sources_spelling_unambiguous` below — what file,
+    environment value and argv spell is a function of them).  A reader
     that skipped a word with an unknown key, dropped a line it could not evaluate, or invented a value
     would violate this theorem (there would be no derivation for the file). -/
 theorem C02_parse_faithful_sources (cfg : Cfg) (inits : List DVal) (src : Sources) (prog : Word) (ws : List Word)
@@ -343,6 +346,36 @@ theorem C02_spelling_unambiguous (cfg : Cfg) (ws : List Word) (us us' : List Use
     (h : SpellsPlus cfg us ws) (h' : SpellsPlus cfg us' ws) : us = us' :=
   SpellsPlus_functional h h'
 
+/-- **The grammar of the sources is a function of what is read** (audit3, 1a.a).  Two derivations of
+    the same argument file (or none), environment value (or none) and argv, read from the same
+    last-argument marker and `!` flag, spell the same three use lists and end in the same state.  For a
+    file the state at the end of a line is the start state of the next one, so this needs
+    functionality of one line INCLUDING its end state (`SPE_functional`, Lemmas/SourcesFunctional.lean);
+    a skipped line and a read line exclude each other (`SkippedLine`).  Hence in
+    `C02_parse_faithful_sources` / `C02_sound_sources_partial` the three lists `usF`, `usE`, `usA` — and
+    the ghost log `hf.uses` — are determined by file, environment value and argv alone. -/
+theorem C02_sources_spelling_unambiguous (cfg : Cfg) (l0 : Option Nat) (inv0 : Bool) (src : Sources) (ws : List Word)
+    {usF usE usA usF' usE' usA' : List Use} {lF lE lA lF' lE' lA' : Option Nat} {iF iE iA iF' iE' iA' : Bool}
+    (hF : FileSrcSpellsPlus cfg l0 inv0 usF src.file lF iF) (hE : EnvSrcSpellsPlus cfg lF iF usE src.env lE iE)
+    (hA : LineSpells cfg lE iE usA ws lA iA)
+    (hF' : FileSrcSpellsPlus cfg l0 inv0 usF' src.file lF' iF') (hE' : EnvSrcSpellsPlus cfg lF' iF' usE' src.env lE' iE')
+    (hA' : LineSpells cfg lE' iE' usA' ws lA' iA') :
+    usF = usF' ∧ usE = usE' ∧ usA = usA' ∧ lA = lA' ∧ iA = iA' :=
+  sources_functional hF hE hA hF' hE' hA'
+
+/-- … so the log of an accepted evaluation with sources is a function of file, environment value and
+    argv: two accepted evaluations of the same sources and words — whatever the initial destination
+    values and the program name — log the same uses. -/
+theorem C02_sources_log_determined (cfg : Cfg) (inits inits' : List DVal) (src : Sources) (prog prog' : Word)
+    (ws : List Word) (hf hf' : HState)
+    (he : evalArguments cfg (cfg.initState inits) src (prog :: ws) = .ok hf)
+    (he' : evalArguments cfg (cfg.initState inits') src (prog' :: ws) = .ok hf') : hf.uses = hf'.uses := by
+  obtain ⟨usF, usE, usA, lF, iF, lE, iE, lA, iA, sF, sE, sA, hu⟩ := C02_parse_faithful_sources cfg inits src prog ws hf he
+  obtain ⟨usF', usE', usA', lF', iF', lE', iE', lA', iA', sF', sE', sA', hu'⟩ :=
+    C02_parse_faithful_sources cfg inits' src prog' ws hf' he'
+  obtain ⟨a, b, c, _⟩ := C02_sources_spelling_unambiguous cfg none false src ws sF sE sA sF' sE' sA'
+  rw [hu, hu', a, b, c]
+
 /-- **The word classifier of C05 is the grammar's tokenizer.**  `classifyWord` (Model/KeysCmdline.lean,
     the hand classifier behind `C05_cmdline_exact`) and `cmdKey` agree with `nextTok` / `KeyTok` on the
     two plain key words `-c` and `--name`: the element is the one announced, the reading stands behind
@@ -462,6 +495,16 @@ example (ws : List Word) (hf : HState) :
     ["-q".toList, "--nosuch".toList] ["-q".toList] [] [] 'n' "osuch".toList
     (Or.inr (Or.inr ⟨_, rfl, by decide⟩)) rfl (by decide) (by intro x hx; cases hx) (by decide) (by decide)
     (by decide) hf
+
+/-- `C02_sources_log_determined` on the example above: other initial values, another program name —
+    the same log -/
+example (hf hf' : HState)
+    (he : evalArguments RulesExample.cfg (RulesExample.cfg.initState RulesExample.inits)
+      { file := some ["# c".toList, "-q".toList, "-o f".toList], env := some "-n 5".toList } ["p".toList] = .ok hf)
+    (he' : evalArguments RulesExample.cfg (RulesExample.cfg.initState [])
+      { file := some ["# c".toList, "-q".toList, "-o f".toList], env := some "-n 5".toList } ["other".toList] = .ok hf') :
+    hf.uses = hf'.uses :=
+  C02_sources_log_determined RulesExample.cfg _ _ _ _ _ [] hf hf' he he'
 
 end ExamplesSources
 
